@@ -768,6 +768,11 @@ class Node:
         if new_parent._tree is not self._tree:
             raise NotImplementedError("Can only move nodes inside same tree")
 
+        if new_parent is self or new_parent.is_descendant_of(self):
+            raise ValueError(
+                f"Cannot move {self} below itself or one of its descendants"
+            )
+
         pc = self._parent._children
         pc.pop(_index_of(pc, self))  # type: ignore
         if not self._parent._children:  # store None instead of `[]`
